@@ -4,5 +4,7 @@
 //! which fails to compile for an unrelated reason (renamed API, wrong path) is detected.
 //! Run with `cargo +nightly test --doc --offline` (stable ignores the error code).
 pub mod c01;
+pub mod c10;
+pub mod c11;
 pub mod c19;
 pub mod c20;
